@@ -187,6 +187,17 @@ def run(chk):
     run_scenarios(chk, 'apply tasks that overrun their limit, then more tasks on the same workers: ids and state of the instances (DetSim)', at, {'C13'},
                   nontrivial=lambda sc, o: True, dist=lambda sc, o: {'n_jobs': sc['pool']['n_jobs'], 'start': sc['pool']['start_method']})
 
+    # apply submissions: worker_init fails in one worker while another one is in the middle of a long task; the caller goes on using the
+    # pool — whatever replaces the old workers does not run while they still do
+    fb = []
+    for _ in range(30 if chk.tier == 'quick' else 400):
+        nj = rng.choice([2, 3])
+        fb.append({'seed': rng.randint(0, 10 ** 6), 'pool': {'n_jobs': nj, 'start_method': 'fork', 'pass_worker_id': True, 'use_worker_state': rng.random() < .5}, 'relax_shape': True,
+                   'ops': [{'op': 'apply_batch', 'tasks': [{'idx': i} for i in range(nj)], 'init': True, 'fail': {'init': 'Worker-0', 'exc': 'ValueError'}, 'get_timeout': 10,
+                            'dur': {'kind': 'map', 'map': {str(i): rng.choice([1.0, 2.0]) for i in range(1, nj)}, 'default': 0.01}, 'wait_order': [0]},
+                           {'op': 'apply_batch', 'tasks': [{'idx': i} for i in range(2 * nj)], 'dur': {'kind': 'map', 'map': {}, 'default': 0.05}, 'get_timeout': 30}]})
+    run_scenarios(chk, 'a pool that failed in one worker while another was busy, used again at once (DetSim)', fb, {'C13'}, nontrivial=lambda sc, o: True,
+                  dist=lambda sc, o: {'n_jobs': sc['pool']['n_jobs']})
     # kept-alive workers whose first call(s) bring no worker_init and a later one does: the state object the tasks have been using is the
     # one the late worker_init and everything after it gets
     li = []
